@@ -211,6 +211,7 @@ def main(argv=None) -> int:
             print(f"replay OK (no violation) property={pid}")
             return 0
         ctx = Ctx(pid, a.tier, seed)
+        shutil.rmtree(ctx.replay_dir, ignore_errors=True)
         mod.run(ctx)
         return ctx.finish()
     except MachineryError as e:
